@@ -1567,6 +1567,7 @@ type c05ConcRun struct {
 	Lens   []int  `json:"lens"`
 	MaxSeg int    `json:"maxSeg"`
 	ParkAt int    `json:"parkAt,omitempty"` // > 0: the deterministic two-writer schedule
+	LateMs int    `json:"lateMs,omitempty"` // the receiving application starts reading this late: the writers queue up on a full socket
 	Seed   int64  `json:"seed"`
 }
 
@@ -1667,6 +1668,9 @@ func c05RunConc(res *kit.Result, tw *kit.TraceWriter, run c05ConcRun) {
 	rch := make(chan rdSummary, 1)
 	go func() { // the receiving application
 		var s rdSummary
+		if run.LateMs > 0 {
+			time.Sleep(time.Duration(run.LateMs) * time.Millisecond)
+		}
 		buf := make([]byte, run.Buf)
 		last := make([]int, run.K+1)
 		for s.got < total {
@@ -1875,6 +1879,15 @@ func c05ConcBody(res *kit.Result, tw *kit.TraceWriter) {
 				}
 				// a small reader buffer: some messages are oversize, the reader must stop with an error
 				c05RunConc(res, tw, c05ConcRun{Kind: kind, K: k, Per: per, Buf: 1000, Lens: []int{4, 5, 999, 1000, 1000, 100, 7, 1001}, MaxSeg: maxSeg, Seed: int64(rng.Intn(1 << 30))})
+			}
+			if kind == "tls-tcp" {
+				// a real socket with a late reader: the send buffer fills, the writers queue up inside conn.Write; only
+				// large messages of pairwise different lengths (whatever a writer prepares outside the socket's write
+				// lock is exposed to the others for as long as it waits)
+				large := []int{4096, 4097, 5000, 8192, 12000, 16384, 16401, c05MaxTLSWrite}
+				for _, k := range []int{4, 8, 16} {
+					c05RunConc(res, tw, c05ConcRun{Kind: kind, K: k, Per: 12, Buf: codeBuf, Lens: large, LateMs: 30, Seed: int64(rng.Intn(1 << 30))})
+				}
 			}
 			if res.NumViolations() > 10 {
 				break
